@@ -83,6 +83,25 @@ CHECKS.update({
             "DESIGN.md section 3 C04"),
 })
 
+_ENGINE = ("Bounded symbolic execution of the engine's real consumer loop (unit.execute), ExecutionPlan.execute, worker_task, run_test, "
+           "ExecutionControl, cached_test_func and the CLI's ExecutionContext.on_event on sequentialised schedules: the worker pool is replaced by a "
+           "scripted queue whose content (within the grammar workers can emit), empty-poll positions, worker liveness, Ctrl-C position, the read at "
+           "which the stop flag flips, max_failures and the fault class per pipeline stage are symbolic. Real thread interleavings are outside.")
+CHECKS.update({
+    "C05": (_ENGINE + " C05 asserts: nothing a worker reported is lost, every operation taken is accounted for, the exit code is non-zero iff a "
+            "failure/error was reported. Known finding: unexpected exceptions from create_test leave worker_task.",
+            "CrossHair symbolic execution (z3) of unit.execute/ExecutionPlan.execute/worker_task/run_test/on_event over symbolic event scripts, stop points and faults",
+            "DESIGN.md section 3 C05"),
+    "C11": (_ENGINE + " C11 asserts the protocol: start first, exactly one finish last, phases/suites/scenarios opened and closed once in order with "
+            "matching ids, closing never without opening, statuses consistent, unclosed scenarios only when interrupted.",
+            "CrossHair symbolic execution (z3) of unit.execute/ExecutionPlan.execute/worker_task/run_test over symbolic event scripts and stop points",
+            "DESIGN.md section 3 C11"),
+    "C12": (_ENGINE + " C12 asserts the limits: at most max-failures failures forwarded and later phases SKIP(failure limit reached), nothing forwarded / "
+            "taken / started after a stop or Ctrl-C, the failure counter step from an arbitrary state (unbounded ints), unique-inputs never re-sends a request.",
+            "CrossHair symbolic execution (z3) of ExecutionControl/unit.execute/ExecutionPlan.execute/cached_test_func over symbolic counters, hash sequences and stop points",
+            "DESIGN.md section 3 C12"),
+})
+
 NOT_APPLICABLE = {
     "C13": "Seed reproducibility is a 2-run hyper-property of the whole program through Hypothesis' engine, its PRNG, identity-keyed caches and "
            "set iteration order; none of it can be made a symbolic variable of a bounded encoding, and the only solver-shaped fragment "
